@@ -156,3 +156,29 @@ def find_loops(src, m, body_open, body_close):
         if d['insert_at'] is None:
             raise ValueError('do without while')
     return loops
+
+
+def rename_definitions(src, names, prefix='v_real_'):
+    """Rename the *definitions* of the given functions (calls keep the original name, which a stub then provides);
+    a forward declaration under the original name, copied from the definition's own signature, is emitted first."""
+    m = mask(src)
+    edits = []
+    for fn in names:
+        try:
+            sig, bo, bc = find_function(src, m, fn)
+            edits.append((sig, fn))
+        except LookupError:
+            pass
+    done = []
+    for sig, fn in sorted(edits, reverse=True):
+        k2 = sig - 1
+        while k2 > 0 and m[k2] not in ';}':
+            k2 -= 1
+        ds = k2 + 1 if k2 > 0 else 0
+        while ds < sig and m[ds].isspace():
+            ds += 1
+        close = match_close(m, src.index('(', sig), '(', ')')
+        proto = ' '.join(src[ds:close + 1].split()) + '; '   # single line: keeps the line numbering of the file
+        src = src[:ds] + proto + src[ds:sig] + prefix + src[sig:]
+        done.append(fn)
+    return src, done
